@@ -71,8 +71,15 @@ TimeCalls ==
             f \in (IF Dense THEN {<<>>, <<53>>, <<49, 50, 51>>, <<48, 48, 49>>} ELSE {<<>>, <<49, 50, 51>>}),
             z \in DOMAIN TZs} : d \in DayEdges}
 
+\* the days on which the DST zones above change their offset (2021 and 2037: second Sunday of March / first of November for
+\* EST5EDT, first Sunday of October / April for Lord Howe), the day before and after, every hour of the day
+DstDays == {18700, 18938, 18903, 18721, 24538, 24776}
+DstCalls ==
+  {[op |-> "time", days |-> d + dd, sod |-> 3600 * h + 3311, frac |-> <<>>, tz |-> TZs[z]] :
+     d \in DstDays, dd \in {-1, 0, 1}, h \in 0..23, z \in DOMAIN TZs}
+
 Calls == CASE Family = "int" -> IntCalls [] Family = "real" -> RealCalls [] Family = "num" -> NumCalls
-           [] Family = "oid" -> OidCalls [] Family = "time" -> TimeCalls
+           [] Family = "oid" -> OidCalls [] Family = "time" -> TimeCalls \cup DstCalls
 
 \* ---- the state machine ----------------------------------------------------------
 Init == \E c \in Calls : call = c /\ done = FALSE /\ l = 0
